@@ -1,7 +1,7 @@
 #!/usr/bin/env python3
 """Confirm a seeded change produced by a sub-agent and keep it under /verif/seeded/<id>/.
 
-usage: intake_mutant.py Cxx k [--skip-tests]
+usage: [MUT_ROOT=/tmp/mut2 MUT_ID_OFFSET=2] intake_mutant.py Cxx k [--skip-tests]
 Confirms in a scratch worktree (outside /repo and /verif, removed afterwards): the patch applies to HEAD of /repo, the
 demonstration exits non-zero with the change and 0 without, and the repository's own suite gives the baseline result
 (86 passed, the same 2 always-failing tests)."""
@@ -17,9 +17,10 @@ def sh(cmd, **kw):
 def main():
     pid, k = sys.argv[1], sys.argv[2]
     skip_tests = '--skip-tests' in sys.argv
-    src = f'/tmp/mut/{pid}_out/{k}'
-    sid = f'{pid}-{k}'
-    wt = f'/tmp/mut/verify_{sid}'
+    root = os.environ.get('MUT_ROOT', '/tmp/mut')
+    src = f'{root}/{pid}_out/{k}'
+    sid = f'{pid}-{int(k) + int(os.environ.get("MUT_ID_OFFSET", "0"))}'
+    wt = f'{root}/verify_{sid}'
     sh(f'git -C /repo worktree remove --force {wt}')
     r = sh(f'git -C /repo worktree add -q {wt} HEAD')
     if r.returncode != 0:
